@@ -27,7 +27,12 @@ def _spec_and_real(out, pid, tier, seed, cfgs, variants, name):
         if g not in terms and not cfg.get("nproc_none"):
             raise MachineryError(f"no terminal state printed by TLC for configuration {g}")
         for v in variants(cfg):
-            obs, evs = E.record_real(cfg, f"{name}_rec", **v) if v.pop("record", False) else (E.run_real(cfg, **v), None)
+            if v.pop("sigint", False):
+                obs, evs = E.run_real_with_sigint(cfg, f"{name}_sigint"), None
+            elif v.pop("record", False):
+                obs, evs = E.record_real(cfg, f"{name}_rec", **v)
+            else:
+                obs, evs = E.run_real(cfg, **v), None
             n_real += 1
             viol, drift = E.judge(cfg, obs, terms.get(g), storage=v.get("storage", "mem"),
                                   tag=(" delays" if v.get("delays") else ""))
@@ -81,6 +86,8 @@ def run_c13(tier, seed):
         vs = [{"record": True}]
         if cfg["nproc"] == 0 and not cfg.get("nproc_none"):
             vs += [{"storage": "memmap-temp"}, {"storage": "memmap-dir"}, {"init_kind": "dict"}]
+            if cfg["nchain"] == 2:
+                vs += [{"storage": "memmap-temp", "second_call": True}, {"storage": "mem", "second_call": True}]
         elif cfg["nchain"] == 2:
             vs += [{"storage": "memmap-dir"}]
         return vs
@@ -255,6 +262,8 @@ def run_c15(tier, seed):
     cfgs = E.gen_configs(tier, seed, with_interrupts=True)
 
     def variants(cfg):
+        if cfg["intr"]["chain"] == 0 and cfg["nproc"]:
+            return [{"sigint": True}]       # a real SIGINT to the whole process group
         vs = [{"record": True}]
         if cfg["nproc"] == 0 and cfg["nchain"] == 2:
             vs += [{"storage": "memmap-dir"}]
